@@ -16,6 +16,9 @@
 (***************************************************************************)
 EXTENDS Grouping, TLC, Json
 CONSTANTS MinN, MaxN,
+          SubMaxN,     \* every non-empty set of user-subclass events is enumerated for twin-free lists up to this length
+          OutputCopy,  \* "same" (the code: the input objects go into the sequences) | "revalidated" (control: instances of a
+                       \*  subclass are replaced by plain SoundEvent copies)
           GuiseMaxN,   \* every guise of the comparison function is enumerated for twin-free lists up to this length
           GuiseTest,   \* "callable" (the code: the function is used as given) | "or_default" (control: `fn or default`)
           ArgSwap,     \* "none" (the code) | "fill_geometry" (control: geometry-less events are compared through copies
@@ -53,7 +56,7 @@ IdPairSeq(m) == LET k == NumIds(m)
                 IN  SelectSeq(all, LAMBDA p : p[1] < p[2] \/ (p[1] = p[2] /\ p[1] \in Repeated(m)))
 GraphZ(n, m, G, rt, N, gz) == [n |-> n, id |-> m, e |-> SelectSeq(IdPairSeq(m), LAMBDA p : p \in G), ret |-> rt,
                                ng |-> SelectSeq([i \in 1..n |-> i], LAMBDA a : a \in N),
-                               gd |-> N # {}, guise |-> gz]       \* with geometry-less events the function also looks
+                               gd |-> N # {}, guise |-> gz, sub |-> <<>>, cl |-> <<>>]       \* with geometry-less events the function also looks
 GraphG(n, m, G, rt, N) == GraphZ(n, m, G, rt, N, "function")
 Graph(n, m, G, rt) == GraphG(n, m, G, rt, {})
 
@@ -63,6 +66,12 @@ Init == /\ \E n \in MinN..MaxN :
                    \/ \E rt \in (IF n <= RetMaxN /\ m = Identity(n) THEN RetTypes ELSE {"bool"}) : c = Graph(n, m, G, rt)
                    \* some events have no geometry: first, middle, last, several, all
                    \/ n <= GeoMaxN /\ m = Identity(n) /\ \E N \in (SUBSET (1..n)) \ {{}} : c = GraphG(n, m, G, "bool", N)
+                   \* some events are instances of a user subclass of SoundEvent
+                   \/ n <= SubMaxN /\ m = Identity(n) /\ \E S \in (SUBSET (1..n)) \ {{}} :
+                         c = [Graph(n, m, G, "bool") EXCEPT !.sub = SelectSeq([i \in 1..n |-> i], LAMBDA a : a \in S)]
+                   \* relations given as disjoint cliques (the form used for very long lists), small here
+                   \/ m = Identity(n) /\ G = {} /\ \E sizes \in {<<2, 2>>, <<3, 1>>, <<1, 2, 1>>, <<4>>, <<1, 1, 1>>, <<2, 3>>} :
+                         SumTo(sizes, Len(sizes)) = n /\ c = [Graph(n, m, G, "bool") EXCEPT !.cl = sizes]
                    \* the comparison function in its other guises
                    \/ n <= GuiseMaxN /\ m = Identity(n) /\ \E gz \in Guises \ {"function"} : c = GraphZ(n, m, G, "bool", {}, gz)
         /\ pc = "pairs" /\ pi = 1 /\ mat = {} /\ calls = <<>>
@@ -117,7 +126,9 @@ Step == PairHit \/ PairMiss \/ PairsDone \/ NewRoot \/ Wave \/ LabelDone \/ Grou
 Next == Step /\ steps' = steps + 1
 Spec == Init /\ [][Next]_vars /\ WF_vars(Next)
 
-Out == [s \in DOMAIN seqs |-> [k \in DOMAIN seqs[s][2] |-> c.id[seqs[s][2][k]]]]      \* what is observed: events, not positions
+\* control "revalidated": a subclass instance comes out as another object (0 = not an input event)
+OutId(i) == IF OutputCopy = "revalidated" /\ c.id[i] \in Range(c.sub) THEN 0 ELSE c.id[i]
+Out == [s \in DOMAIN seqs |-> [k \in DOMAIN seqs[s][2] |-> OutId(seqs[s][2][k])]]      \* what is observed: events, not positions
 Export == pc = "done" => PrintT(<<"CASE", ToJson(c)>>)
 
 (* ---- Impl => Req ---- *)
@@ -134,7 +145,7 @@ ImplLabelSound == pc \in {"label", "group"} /\ gi = 1 =>                  \* lab
 ImplEveryPairOnce == (pc = "label" /\ nl = 0) => calls = [k \in DOMAIN PS |-> <<c.id[PS[k][1]], c.id[PS[k][2]], 1, 1>>]
 (* ---- laws of Req, once per graph ---- *)
 Laws == (pc = "label" /\ nl = 0 /\ fr = {}) =>        \* the state after the last pair (not the initial state: TLC computes those single-threaded)
-           /\ LawEquivalence(c) /\ LawContainsEdges(c) /\ LawLeast(c) /\ LawWarshall(c) /\ LawNoEdgeNoLink(c) /\ LawTwins(c) /\ WellFormed(c)
+           /\ LawEquivalence(c) /\ LawContainsEdges(c) /\ LawLeast(c) /\ LawWarshall(c) /\ LawNoEdgeNoLink(c) /\ LawTwins(c) /\ LawCliques(c) /\ WellFormed(c)
 Terminates == <>(pc = "done")                    \* liveness, checked in the quick configuration (<= 5 nodes)
 \* the same fact by safety alone (used for 6 nodes, where TLC's liveness graph is slow): no state before "done" is
 \* stuck and no behaviour is longer than pairs + 1 + (a root and at most one wave per node, one empty wave per root) + 1 + n + 1
